@@ -13,6 +13,7 @@ package main
 //@ import "github.com/duo-labs/webauthn/protocol"
 //@ import "github.com/Cloud-Foundations/keymaster/keymasterd/eventnotifier"
 //@ import "encoding/pem"
+//@ import "net"
 //@ import "database/sql"
 //@ use strings nethttp fmt oauth2 neturl time ssh crypto errors x509 keymasterd_jose pwauth cfssl math keymasterd_rate logging sync html
 
@@ -236,12 +237,22 @@ package main
 //@   ensures userErr == nil && err == nil ==> params != nil && strongKey(params.UserPub)                  #C10.role-strong @C10
 //@   ensures userErr == nil && err == nil ==> params != nil && automationUser(state, params.Role)          #C08.role-parse-automation @C08
 //@   ensures userErr == nil && err == nil ==> params != nil && params.Duration == maxRoleRequestingCertDuration  #C03.role-45d @C03
+// the certificate is minted for as many netblocks as requestor_netblock values were submitted (none of the target
+// netblocks ends up among them): one parsed block per value, in both loops
+//@   ensures userErr == nil && err == nil ==> params != nil && len(params.RequestorNetblocks) == len(r.PostForm["requestor_netblock"])   #C11.mint-only-requestor-netblocks @C11
+//@   loop 1 (rvalue roleRequestingCertGenParams, rangeindex int, requestorNetblockStrings []string) invariant len(rvalue.RequestorNetblocks) == rangeindex + 1 && same(requestorNetblockStrings, r.PostForm["requestor_netblock"])  #C11.mint-requestor-loop @C11
+//@   loop 2 (rvalue roleRequestingCertGenParams, requestorNetblockStrings []string) invariant len(rvalue.RequestorNetblocks) == len(requestorNetblockStrings) && same(requestorNetblockStrings, r.PostForm["requestor_netblock"])  #C11.mint-target-loop @C11
 //@   ensures fresh(params)
+//@ ghost var ghostCertNets []net.IPNet
 //@ func (*RuntimeState).parseRefreshRoleCertGenParams
 //@   results params, userErr, err
 //@   ensures userErr == nil && err == nil ==> params != nil && strongKey(params.UserPub)                  #C10.refresh-strong @C10
 //@   ensures userErr == nil && err == nil ==> params != nil && params.Duration == maxRoleRequestingCertDuration  #C03.refresh-45d @C03
 //@   ensures userErr == nil && err == nil ==> params != nil && params.Role == authData.Username            #C11.refresh-identity @C11,C08
+// the refreshed certificate is for the netblocks read from the presented certificate (the leaf of the first verified chain)
+//@   atcall certgen.ExtractIPNetsFromIPRestrictedX509 requires (c *x509.Certificate) :: r.TLS != nil && len(r.TLS.VerifiedChains) > 0 && len(r.TLS.VerifiedChains[0]) > 0 && c == r.TLS.VerifiedChains[0][0]   #C11.refresh-reads-presented-certificate @C11
+//@   atcall certgen.ExtractIPNetsFromIPRestrictedX509 sets ghostCertNets []net.IPNet (c *x509.Certificate, nets []net.IPNet, err2 error) :: nets
+//@   ensures userErr == nil && err == nil ==> params != nil && same(params.RequestorNetblocks, ghostCertNets)   #C11.refresh-keeps-netblocks @C11
 //@   ensures userErr == nil && err == nil ==> params != nil && automationUser(state, params.Role)          #C08.refresh-parse-automation @C08
 //@   ensures fresh(params)
 //@ func (*RuntimeState).withParamsGenerateRoleRequestingCert
